@@ -341,6 +341,59 @@ def leg_generated(ns, res, spec):
     res.sample({'leg': 'generated', 'cases': len(cases), 'example': cases[0]['query_text'], 'solo_example': {k: solo[0][k] for k in ('rows', 'error')}})
 
 
+def leg_js_history(ns, res, spec):
+    """The JS port, sequentially (its module-global context rules out concurrent queries, which is documented and not claimed): the result of a
+    query alone in a fresh node process vs after shuffled histories of other - also failing - queries in one node process."""
+    from . import c06, common
+    from ..js import bridge
+    rng = random.Random(spec['seed'] * 2038074743 + spec['i'])
+    cases = []
+    k = 0
+    while len(cases) < spec['n'] and k < spec['n'] * 20:
+        c = c06.case_stream(rng, spec['i'] * 100000 + k)
+        k += 1
+        if common.js_supported(c):
+            cases.append(c)
+            t = header_twin(rng, dict(c, query_text='')) if c['a_names'] is not None else None
+            if t is not None and rng.random() < 0.5:
+                t.pop('query_text', None)
+                cases.append(t)
+    reqs = [common.js_request(c) for c in cases]
+    noise = [{'query': qn, 'input': [list(r) for r in c['A']], 'join': None if c['B'] is None else [list(r) for r in c['B']], 'input_cols': c['a_names'], 'join_cols': c['b_names']} for c in cases[:len(common.JS_NOISE_QUERIES)] for qn in [rng.choice(common.JS_NOISE_QUERIES)]]
+    key = lambda o: json.dumps({'out': o['out'], 'header': o['header'], 'warnings': o['warnings'], 'error': o['error']}, sort_keys=True)
+    solo = []
+    for r in reqs:
+        node = bridge.Node.start()
+        if node is None:
+            res.notes.append('js history leg: unavailable (no node)')
+            return
+        try:
+            solo.append(key(node.call({'op': 'query_batch', 'cases': [r]})['results'][0]))
+        finally:
+            node.close()
+    res.count('js_solo_results_from_fresh_node_processes', len(solo))
+    node = bridge.Node.start()
+    try:
+        for p in range(3):
+            order = [('case', i) for i in range(len(reqs))] + [('noise', i) for i in range(len(noise))]
+            rng.shuffle(order)
+            outs = node.call({'op': 'query_batch', 'cases': [reqs[i] if kind == 'case' else noise[i] for kind, i in order]})['results']
+            for pos, ((kind, i), o) in enumerate(zip(order, outs)):
+                if kind != 'case':
+                    res.count('js_history_noise_queries')
+                    continue
+                res.evaluations += 1
+                res.count('js_history_runs')
+                res.nontrivial('js-hist', reqs[i]['query'], p)
+                if key(o) != solo[i]:
+                    prev = [(reqs[j]['query'] if kd == 'case' else noise[j]['query']) for kd, j in order[max(0, pos - 3):pos]]
+                    res.violation('js:history-differs-from-fresh-process', '[js] %s after %d other queries (last: %r) -> %s ; alone in a fresh node process -> %s' % (reqs[i]['query'], pos, prev, key(o)[:300], solo[i][:300]),
+                                  {'leg': 'js-history', 'requests': [(reqs[j] if kd == 'case' else noise[j]) for kd, j in order[:pos + 1]][-8:]})
+    finally:
+        node.close()
+    res.sample({'leg': 'js-history', 'cases': len(reqs), 'example': reqs[0]['query']})
+
+
 def leg_preempt(ns, res, spec):
     """8 threads x N queries with a tiny switch interval and seeded sleep(0) injected between statements of the engine and the generated loop."""
     R = spec['R']
@@ -410,6 +463,7 @@ def plan(tier, seed):
             specs.append({'kind': 'history', 'R': 3, 'solo': solo3, 'k': 2, 'i': s, 'random_sequences': 150})
         specs.append({'kind': 'preempt', 'R': 3, 'solo': solo3, 'n': 60})
         specs += [{'kind': 'generated', 'i': i, 'n': 60, 'pairs': 40, 'schedules': 3} for i in range(4)]
+        specs += [{'kind': 'js-history', 'i': i, 'n': 40} for i in range(4)]
     else:
         solo4 = fresh_baselines(4)
         kinds = ['get_record', 'write', 'finish']
@@ -426,20 +480,21 @@ def plan(tier, seed):
         for s in range(4):
             specs.append({'kind': 'preempt', 'R': 4, 'solo': solo4, 'n': 200})
         specs += [{'kind': 'generated', 'i': i, 'n': 400, 'pairs': 400, 'schedules': 6} for i in range(12)]
+        specs += [{'kind': 'js-history', 'i': i, 'n': 200} for i in range(8)]
     return specs
 
 
 def run_shard(spec, res):
     ns = env.import_rbql()
-    {'history': leg_history, 'interleave': leg_interleave, 'preempt': leg_preempt, 'generated': leg_generated}[spec['kind']](ns, res, spec)
+    {'history': leg_history, 'interleave': leg_interleave, 'preempt': leg_preempt, 'generated': leg_generated, 'js-history': leg_js_history}[spec['kind']](ns, res, spec)
 
 
 def summarize(tier, seed, m):
     return {
-        'rule': '%d scenarios (plain select, like, UNNEST, ORDER BY, DISTINCT COUNT, GROUP BY with all nine aggregates, JOIN, UPDATE with NU, TOP, syntax error, parsing error, runtime error at record 2, aggregate misuse, double UNNEST, and two pairs of identical query texts over differently ordered headers); solo results from one fresh interpreter per scenario; history: every sequence of length <= 2 plus random sequences of length 3..6 in one process; interleaving: every unordered pair of scenarios (incl. a scenario with itself) in two real threads under the cooperative scheduler, ALL interleavings of the get_record / write / finish steps enumerated by stateless DFS (%s); preemption stress with sys.monitoring LINE yield injection; generated queries (C01-C05 generators, failing variants, and header twins: the same query text over the same data with the columns in another order) whose solo results come from forked children of a query-free interpreter, then run in three shuffled orders through one interpreter (probe sink and CSV writer sink) and pairwise in two threads under seeded random schedules. distinct_nontrivial = distinct step traces realised + distinct history sequences.' % (
+        'rule': '%d scenarios (plain select, like, UNNEST, ORDER BY, DISTINCT COUNT, GROUP BY with all nine aggregates, JOIN, UPDATE with NU, TOP, syntax error, parsing error, runtime error at record 2, aggregate misuse, double UNNEST, and two pairs of identical query texts over differently ordered headers); solo results from one fresh interpreter per scenario; history: every sequence of length <= 2 plus random sequences of length 3..6 in one process; interleaving: every unordered pair of scenarios (incl. a scenario with itself) in two real threads under the cooperative scheduler, ALL interleavings of the get_record / write / finish steps enumerated by stateless DFS (%s); preemption stress with sys.monitoring LINE yield injection; generated queries (C01-C05 generators, failing variants, and header twins: the same query text over the same data with the columns in another order) whose solo results come from forked children of a query-free interpreter, then run in three shuffled orders through one interpreter (probe sink and CSV writer sink) and pairwise in two threads under seeded random schedules; the JS port sequentially: generated language-neutral queries alone in a fresh node process each vs three shuffled histories (with failing queries interspersed) in one node process. distinct_nontrivial = distinct step traces realised + distinct history sequences.' % (
             len(SCENARIOS), '2-record tables' if tier == 'quick' else '2- and 3-record tables for all pairs (3-record pairs capped at 20000 schedules), 4-record tables for 6 selected pairs'),
         'exhaustive': m['counters'].get('pairs_truncated', 0) == 0,
-        'required': ['generated_solo_results', 'generated_header_twins', 'generated_history_runs', 'generated_interleaved_schedules', 'generated_interleaved_handoffs', 'schedules', 'pairs_enumerated_completely', 'handoffs', 'history_runs', 'preemption_runs', 'line_events_in_main_loop', 'injected_yields'],
+        'required': ['js_solo_results_from_fresh_node_processes', 'js_history_runs', 'generated_solo_results', 'generated_header_twins', 'generated_history_runs', 'generated_interleaved_schedules', 'generated_interleaved_handoffs', 'schedules', 'pairs_enumerated_completely', 'handoffs', 'history_runs', 'preemption_runs', 'line_events_in_main_loop', 'injected_yields'],
         'assumptions': ['exhaustive at the granularity of iterator / writer calls (what the statement names); statement-level preemption is sampled; bytecode-level is not explored', 'a change of module-level state alone is not a refutation (advisory notes only)'],
     }
 
